@@ -1,2 +1,80 @@
-/-! Driver for C25 (stub: not built yet). -/
-def main : IO Unit := pure ()
+import Drivers.Proto
+import PymocaVerif.Model.XmlTree
+/-! Driver for C25: `xml.encode` runs the `XmlTree` model on the abstraction of a flat AST and returns the
+    element tree (or `raised`), plus whether `decode` reads the flat model back from it. -/
+open Lean Drivers PymocaVerif.XmlTree
+
+partial def parseExpr (j : Json) : Except String Expr := do
+  let a ← j.getArr?
+  let kind ← (a[0]?.getD Json.null).getStr?
+  match kind with
+  | "lit" => pure (.lit (← (a[1]?.getD Json.null).getStr?))
+  | "ref" => pure (.ref (← (a[1]?.getD Json.null).getStr?))
+  | "op" => do
+    let n ← (a[1]?.getD Json.null).getStr?
+    let args ← (← (a[2]?.getD Json.null).getArr?).toList.mapM parseExpr
+    pure (.op n args)
+  | "other" => pure (.other (← (a[1]?.getD Json.null).getStr?))
+  | k => throw s!"bad-expr {k}"
+
+partial def parseEqn (j : Json) : Except String Eqn := do
+  let a ← j.getArr?
+  let kind ← (a[0]?.getD Json.null).getStr?
+  match kind with
+  | "equal" => pure (.equal (← parseExpr (a[1]?.getD Json.null)) (← parseExpr (a[2]?.getD Json.null)))
+  | "call" => do
+    let n ← (a[1]?.getD Json.null).getStr?
+    let args ← (← (a[2]?.getD Json.null).getArr?).toList.mapM parseExpr
+    pure (.call n args)
+  | "when" => do
+    -- ["when", cond, [body…], [elseCond…], [elseBody…]]
+    let c ← parseExpr (a[1]?.getD Json.null)
+    let b ← (← (a[2]?.getD Json.null).getArr?).toList.mapM parseEqn
+    let ec ← (← (a[3]?.getD Json.null).getArr?).toList.mapM parseExpr
+    let eb ← (← (a[4]?.getD Json.null).getArr?).toList.mapM parseEqn
+    pure (.when c b ec eb)
+  | "other" => pure (.other (← (a[1]?.getD Json.null).getStr?))
+  | k => throw s!"bad-eqn {k}"
+
+def parseOptExpr (j : Json) : Except String (Option Expr) :=
+  if j.isNull then pure none else do pure (some (← parseExpr j))
+
+def parseVar (j : Json) : Except String Var := do
+  let name ← getStr j "name"
+  let type ← getStr j "type"
+  let prefixes ← (← getArr j "prefixes").toList.mapM (·.getStr?)
+  let start ← parseOptExpr ((j.getObjVal? "start").toOption.getD Json.null)
+  let value ← parseOptExpr ((j.getObjVal? "value").toOption.getD Json.null)
+  let fixed ← getBool j "fixed"
+  pure ⟨name, type, prefixes, start, value, fixed⟩
+
+def parseCls (j : Json) : Except String Cls := do
+  let name ← getStr j "name"
+  let vars ← (← getArr j "vars").toList.mapM parseVar
+  let eqs ← (← getArr j "eqs").toList.mapM parseEqn
+  pure ⟨name, vars, eqs⟩
+
+partial def xmlJson : Xml → Json
+  | .node tag attrs kids =>
+    Json.arr #[Json.str tag,
+      Json.arr (attrs.map (fun (k, v) => Json.arr #[Json.str k, Json.str v])).toArray,
+      Json.arr (kids.map xmlJson).toArray]
+
+def handle (req : Json) : Except String Json := do
+  let op ← getStr req "op"
+  match op with
+  | "xml.encode" => do
+    let cfg : Cfg := ⟨← getBool req "exprAttrs"⟩
+    let classes ← (← getArr req "classes").toList.mapM parseCls
+    let m : Flat := ⟨classes⟩
+    match encode cfg m with
+    | none => pure (Json.mkObj [("ok", true), ("raised", true)])
+    | some x =>
+      let back := match decode x with
+        | some m' => m' == kept m
+        | none => false
+      pure (Json.mkObj [("ok", true), ("raised", false), ("xml", xmlJson x), ("decodes_to_kept", back),
+        ("no_else", noElse m)])
+  | o => throw s!"unknown-op {o}"
+
+def main : IO Unit := serve handle
